@@ -36,6 +36,8 @@ Un1(dummy) == \A a \in Vals :
    /\ \A n \in {1, 2, 3, 5, 7, 64, 200} : ZIRoot(a, n) = P!ZIRoot(a, IF a # "0" /\ ZIsNeg(a) /\ n % 2 = 0 THEN n ELSE n)
    /\ \A e \in {0, 1, 2, 5} : ZPow(a, e) = P!ZPow(a, e)
    /\ ZLimbs(ZAbs(a), 64, 3) = P!ZLimbs(P!ZAbs(a), 64, 3)
+   /\ \A b \in {"1", "ffffffffffffffff", "123456789abcdef0fedcba9876543210", "8000000000000000ffffffffffffffff0000000000000001"}, mm \in {3, 4}, nn \in {1, 2, 3} :
+         ZMulMid(ZLowBits(ZAbs(a), 64 * mm), mm, ZLowBits(b, 64 * nn), nn, 64) = P!ZMulMid(P!ZLowBits(P!ZAbs(a), 64 * mm), mm, P!ZLowBits(b, 64 * nn), nn, 64)
 PowM(dummy) == \A a \in {"0", "1", "-3", "2", "123456789abcdef0fedcba9876543210", "-deadbeefcafebabe0123456789"},
                    e \in {"0", "1", "2", "b", "10001", "123456789abcdef"},
                    m \in {"1", "-1", "2", "7", "-10", "10000000f", "100000000000000000000000000000001", "-ffffffffffffffff0000000000000000"} :
